@@ -85,7 +85,7 @@ theorem expect_bind {α β : Type} (m : Msg) (w : Option Msg) (k : Prog α) (f :
   congr 1; funext r
   split <;> rfl
 
-theorem ownReport?_eq_some {a : UInt16} {r : Option Msg} {s : State} :
+theorem ownReport_some_iff {a : UInt16} {r : Option Msg} {s : State} :
     ownReport? a r = some s ↔ r = some (.reportState a s) := by
   constructor
   · intro h
@@ -100,17 +100,17 @@ theorem ownReport?_eq_some {a : UInt16} {r : Option Msg} {s : State} :
     subst h
     simp [ownReport?]
 
-theorem ownReport?_eq_none {a : UInt16} {r : Option Msg} :
+theorem ownReport_none_iff {a : UInt16} {r : Option Msg} :
     ownReport? a r = none ↔ ∀ s, r ≠ some (.reportState a s) := by
   constructor
   · intro h s hr
-    rw [(ownReport?_eq_some).2 hr] at h; cases h
+    rw [(ownReport_some_iff).2 hr] at h; cases h
   · intro h
     cases ho : ownReport? a r with
     | none => rfl
-    | some s => exact absurd ((ownReport?_eq_some).1 ho) (h s)
+    | some s => exact absurd ((ownReport_some_iff).1 ho) (h s)
 
-theorem anyReport?_eq_some {r : Option Msg} {s : State} :
+theorem anyReport_some_iff {r : Option Msg} {s : State} :
     anyReport? r = some s ↔ ∃ a', r = some (.reportState a' s) := by
   constructor
   · intro h
